@@ -2671,13 +2671,13 @@ func (s *ShowMeasurementsStatement) String() string {
 		if s.WildcardDatabase {
 			_, _ = buf.WriteString("*")
 		} else {
-			_, _ = buf.WriteString(s.Database)
+			_, _ = buf.WriteString(QuoteIdent(s.Database))
 		}
 		if s.WildcardRetentionPolicy {
 			_, _ = buf.WriteString(".*")
 		} else if s.RetentionPolicy != "" {
 			_, _ = buf.WriteString(".")
-			_, _ = buf.WriteString(s.RetentionPolicy)
+			_, _ = buf.WriteString(QuoteIdent(s.RetentionPolicy))
 		}
 	}
 	if s.Source != nil {
@@ -3624,7 +3624,7 @@ type Distinct struct {
 
 // String returns a string representation of the expression.
 func (d *Distinct) String() string {
-	return fmt.Sprintf("DISTINCT %s", d.Val)
+	return fmt.Sprintf("DISTINCT %s", QuoteIdent(d.Val))
 }
 
 // NewCall returns a new call expression from this expressions.
